@@ -38,6 +38,18 @@
 #ifndef VERIF_INV_CHECK_BACKUP_SUPER_BLOCK
 #define VERIF_INV_CHECK_BACKUP_SUPER_BLOCK
 #endif
+#ifndef VERIF_INV_CHECK_ZERO_BLOCK
+#define VERIF_INV_CHECK_ZERO_BLOCK
+#endif
+#ifndef VERIF_INV_IND_PUNCH
+#define VERIF_INV_IND_PUNCH
+#endif
+#ifndef VERIF_GHOST_IND_PUNCH_ITER
+#define VERIF_GHOST_IND_PUNCH_ITER
+#endif
+#ifndef VERIF_INV_BLOCK_ALLOC_STATS_RANGE
+#define VERIF_INV_BLOCK_ALLOC_STATS_RANGE
+#endif
 #ifndef VERIF_INV_PASS2_CHECK_NAME
 #define VERIF_INV_PASS2_CHECK_NAME
 #endif
